@@ -526,8 +526,10 @@ def main(ctx, args):
                 c = json.load(open(os.path.join(cdir, fn)))
                 cases.append({"id": "corpus:" + fn[:-5], "src": c["src"], "sx": c.get("sx"), "inputs": c.get("inputs", []), "times": c.get("times", 8),
                               "expect": c.get("expect"), "shapes": c.get("shapes", {})})
-        plan = ([("scalar_nr", 30), ("core_nr", 200), ("deep_nr", 30), ("closure_assign_nr", 60), ("tupassign_nr", 60)] if ctx.tier == "quick" else
-                [("scalar_nr", 500), ("core_nr", 900), ("deep_nr", 300), ("closure_assign_nr", 100), ("nolam", 100), ("notup", 100), ("tupassign_nr", 300)])
+        plan = ([("scalar_nr", 30), ("core_nr", 200), ("deep_nr", 30), ("closure_assign_nr", 60), ("tupassign_nr", 60),
+                 ("nested_assign_nr", 50), ("nested_nr", 20)] if ctx.tier == "quick" else
+                [("scalar_nr", 500), ("core_nr", 900), ("deep_nr", 300), ("closure_assign_nr", 100), ("nolam", 100), ("notup", 100), ("tupassign_nr", 300),
+                 ("nested_assign_nr", 400), ("nested_nr", 150)])
         for prof, n in plan:
             cs, st = pc.gen_cases(ctx.seed, n, prof, times)
             cases += steer_cases(cs, stats)
